@@ -318,6 +318,9 @@ func main() {
 	if tier == "thorough" {
 		timeout = 90 * time.Minute
 	}
+	if v, err := strconv.Atoi(os.Getenv("VERIF_WORKER_TIMEOUT")); err == nil && v > 0 {
+		timeout = time.Duration(v) * time.Second
+	}
 
 	var results []shardResult
 	runAll := func(bin string, n int, race bool) {
